@@ -60,6 +60,10 @@ def ioKind : Rbsp.IoKind → String
 def bkind : Bits.IoKind → String
   | .eof => "Eof" | .wouldBlock => "WouldBlock" | .invalidData => "InvalidData" | .invalidInput => "InvalidInput"
 
+/-- `b` for Level 1b, `?` when the level_idc is not a level of Table A-1 (the code keeps it as `Unknown(idc)`) -/
+def levelMark (idc : Nat) (is1b : Bool) : String :=
+  if is1b then "b" else if [10, 11, 12, 13, 20, 21, 22, 30, 31, 32, 40, 41, 42, 50, 51, 52, 60, 61, 62].contains idc then "" else "?"
+
 def ioRes : Except Rbsp.IoKind (List UInt8) → String
   | .ok b => "ok:" ++ hexOf b
   | .error k => "err:" ++ ioKind k
@@ -213,7 +217,7 @@ def avcc (d : List UInt8) : String :=
   match Avcc.tryFrom d with
   | .ok () =>
     let f := match Avcc.fields d with
-      | .ok f => s!"v={f.version} n={f.numSps} prof={f.profile} compat={f.compat} level={f.level}{if f.levelIs1b then "b" else ""} lsm1={f.lengthSizeMinusOne}"
+      | .ok f => s!"v={f.version} n={f.numSps} prof={f.profile} compat={f.compat} level={f.level}{levelMark f.level f.levelIs1b} lsm1={f.lengthSizeMinusOne}"
       | _ => "PANIC"
     let ctx := match Avcc.createContext d with
       | .ok c => "Ok(sps=[" ++ ";".intercalate ((Ctx.iter c.sps).map Render.sps) ++ "] pps=[" ++ ";".intercalate ((Ctx.iter c.pps).map Render.pps) ++ "])"
@@ -297,7 +301,7 @@ def derived (src : Src) : String :=
   | .ok (s, _) =>
     let dims := match Sps.pixelDimensions s with | .ok (w, h) => s!"Ok({w},{h})" | .error _ => "Err"
     let fps := match Sps.fpsOf s with | none => "None" | some (ts, n) => s!"Some({ts},{n},exact)"
-    s!"Ok dims={dims} fps={fps} codec={Sps.rfc6381 s} mbs={Sps.picWidthInMbs s},{Sps.picHeightInMapUnits s},{Sps.picSizeInMapUnits s} profile={s.profileIdc} level={s.levelIdc}{if s.levelIdc = 11 ∧ s.constraintFlags / 16 % 2 = 1 then "b" else ""} log2fn={s.log2MaxFrameNumMinus4 + 4}"
+    s!"Ok dims={dims} fps={fps} codec={Sps.rfc6381 s} mbs={Sps.picWidthInMbs s},{Sps.picHeightInMapUnits s},{Sps.picSizeInMapUnits s} profile={s.profileIdc} level={s.levelIdc}{levelMark s.levelIdc (s.levelIdc = 11 ∧ s.constraintFlags / 16 % 2 = 1)} log2fn={s.log2MaxFrameNumMinus4 + 4}"
 
 /-! ### context operations -/
 def ctxOps (ops : List String) : String :=
@@ -410,7 +414,8 @@ def step (st : St) (line : String) : St × String :=
   | ["hdr", b] => let b := b.toNat!; (st, if b ≥ 128 then "err" else s!"ok {b / 32 % 4} {b % 32} back={b}")
   | ["unittype", b] => let b := b.toNat!; (st, if b > 31 then "err" else s!"ok {b}")
   | ["profile", b] => (st, b)
-  | ["level", f, l] => (st, s!"{l} " ++ (if l.toNat! = 11 ∧ f.toNat! / 16 % 2 = 1 then "1b" else "-"))
+  | ["level", f, l] => (st, s!"{l} " ++ (if l.toNat! = 11 ∧ f.toNat! / 16 % 2 = 1 then "1b" else "-") ++
+      (if [10, 11, 12, 13, 20, 21, 22, 30, 31, 32, 40, 41, 42, 50, 51, 52, 60, 61, 62].contains l.toNat! then " K" else " U"))
   | ["flags", f] => let f := f.toNat!; (st, s!"{f} {f / 128 % 2}{f / 64 % 2}{f / 32 % 2}{f / 16 % 2}{f / 8 % 2}{f / 4 % 2} {f % 4}")
   | ["spsid", v] => let v := v.toNat!; (st, if v > 31 then "err" else s!"ok {v}")
   | ["ppsid", v] => let v := v.toNat!; (st, if v > 255 then "err" else s!"ok {v}")
